@@ -4,9 +4,12 @@ from ..project import AnalysisBroken
 
 
 class Flow:
-    def __init__(self, fn, sigs=None, keep_io=False):
+    def __init__(self, fn, sigs=None, keep_io=False, helpers=None):
         self.fn = fn
         tree, self.lower = cpp2ir.lower_function(fn, sigs)
+        if helpers:
+            from .. import tvrun
+            tree = tvrun.inline_helpers(tree, helpers, sigs)
         g = cfgm.build(tree)
         self.g = cfgm.compact(g, drop=('nop',) if keep_io else ('nop', 'io'))
         self._dom = None
@@ -104,6 +107,23 @@ class Flow:
     def _only_via(self, b, arm, node):
         # the throwing arm must not reach `node` at all (it ends in a throw)
         return node.id not in self.reach(b.succ[arm])
+
+
+def private_helpers(prog, fn, exclude=()):
+    """private member functions of fn's class and free functions of fn's file that fn may delegate to (validation / clean-up
+    helpers extracted by a refactor); `exclude` names are kept as calls"""
+    out = {}
+    for f in prog.functions.values():
+        if f is fn or f['name'] in exclude:
+            continue
+        same_cls = fn.get('cls') and f.get('cls') == fn.get('cls') and f.get('access') == 'private'
+        local = not f.get('method') and f.get('file') == fn.get('file')
+        if same_cls or local:
+            if f['name'] in out:
+                out[f['name']] = None       # overloaded: not expanded
+            else:
+                out[f['name']] = f
+    return {k: v for k, v in out.items() if v is not None}
 
 
 def mentions(e, name):
